@@ -31,9 +31,10 @@ func rulesC12(c *Ctx) {
 	ruleDoGetGuards(c)
 	ruleRecoverOnConversion(c)
 	ruleExactInstanceLookup(c)
-	ruleNarrowingKeys(c)    // an out-of-range label is rejected, not truncated onto an installed key (shared with C01)
-	ruleServerFlushTable(c) // Flush rejects unknown / empty instance names before touching the RIB (shared with C08)
-	ruleStopSignal(c)       // a malformed Get cannot hang the RPC: the handler never waits for the producer before telling it to stop (shared with C10)
+	ruleNarrowingKeys(c)     // an out-of-range label is rejected, not truncated onto an installed key (shared with C01)
+	ruleServerFlushTable(c)  // Flush rejects unknown / empty instance names before touching the RIB (shared with C08)
+	ruleStopSignal(c)        // a malformed Get cannot hang the RPC: the handler never waits for the producer before telling it to stop (shared with C10)
+	ruleRetryAfterInstall(c) // an invalid operation is answered FAILED, never held: a hold needs an attempt that returned (not installed, no error) (shared with C02)
 }
 
 // The RPC handlers reject unknown and empty network-instance names by looking
@@ -280,6 +281,27 @@ func ruleOneofSwitches(c *Ctx, rels []string) {
 		return
 	}
 	n := 0
+	// a type switch of a function new to the rules whose clauses have no effect (returns, local assignments, ifs and
+	// getter calls only) selects a value; it accepts nothing, so covering some kinds only is not "silently accepting"
+	// the others. (Its nodes are also reached through the frames it is spliced into.)
+	projection := map[*ast.TypeSwitchStmt]bool{}
+	for _, rel := range rels {
+		pk := c.P.pkg(rel)
+		if pk == nil {
+			continue
+		}
+		for _, fi := range c.P.AllFuncs(rel) {
+			if fi.Decl.Body == nil || !isNewFunc(fi.Obj) {
+				continue
+			}
+			ast.Inspect(fi.Decl.Body, func(m ast.Node) bool {
+				if ts, ok := m.(*ast.TypeSwitchStmt); ok && effectFree(pk.TypesInfo, ts.Body) {
+					projection[ts] = true
+				}
+				return true
+			})
+		}
+	}
 	for _, rel := range rels {
 		pk := c.P.pkg(rel)
 		if pk == nil {
@@ -293,7 +315,7 @@ func ruleOneofSwitches(c *Ctx, rels []string) {
 			ord := 0
 			ast.Inspect(fi.Decl.Body, func(m ast.Node) bool {
 				ts, ok := m.(*ast.TypeSwitchStmt)
-				if !ok {
+				if !ok || projection[ts] {
 					return true
 				}
 				covered := map[string]bool{}
@@ -669,4 +691,32 @@ func callsRecoverDirectly(info *types.Info, body *ast.BlockStmt) bool {
 		return true
 	})
 	return found
+}
+
+// effectFree: the statements contain only returns, definitions of / assignments to plain locals, if statements and
+// calls of Get* methods (generated getters) or conversions — nothing that changes state or talks to anyone.
+func effectFree(info *types.Info, n ast.Node) bool {
+	ok := true
+	ast.Inspect(n, func(m ast.Node) bool {
+		switch x := m.(type) {
+		case *ast.CallExpr:
+			if tv, isT := info.Types[x.Fun]; isT && tv.IsType() {
+				return true
+			}
+			if f, isF := calleeObj(info, x).(*types.Func); isF && strings.HasPrefix(f.Name(), "Get") && f.Type().(*types.Signature).Recv() != nil {
+				return true
+			}
+			ok = false
+		case *ast.AssignStmt:
+			for _, l := range x.Lhs {
+				if _, isID := ast.Unparen(l).(*ast.Ident); !isID {
+					ok = false
+				}
+			}
+		case *ast.SendStmt, *ast.GoStmt, *ast.DeferStmt, *ast.IncDecStmt, *ast.FuncLit, *ast.ForStmt, *ast.RangeStmt:
+			ok = false
+		}
+		return ok
+	})
+	return ok
 }
